@@ -986,7 +986,6 @@ fn answer_lib(line: &str) -> String {
             let a = cal!(c1);
             let b = cal!(c2);
             let j1: i32 = p!(j1.parse().ok());
-            let j2: i32 = p!(j2.parse().ok());
             let fin = |mut d: Date, ops: &[&str]| {
                 for op in ops {
                     if let Ok(x) = hist_step(&d, op) {
@@ -996,6 +995,9 @@ fn answer_lib(line: &str) -> String {
                 d
             };
             let x = fin(a.at_jdn(j1), ops1);
+            // `=`: the second date starts on the day the first history ended on (so that dates
+            // reached by stepping and by the iterators' jumps meet the directly constructed one)
+            let j2: i32 = if *j2 == "=" { x.julian_day_number() } else { p!(j2.parse().ok()) };
             let y = fin(b.at_jdn(j2), ops2);
             ops_agree(x, y);
             format!(
